@@ -22,7 +22,7 @@ git apply $dest/patch.diff
 cd /verif
 git -C /repo apply $dest/patch.diff
 WKV_NO_EVIDENCE=1 ./check $prop > $dest/check_output.log 2>&1; rc=$?
-git -C /repo checkout -- .
+git -C /repo apply -R $dest/patch.diff
 cp -r /verif/replay/$prop $dest/replay 2>/dev/null
 echo "seed=$id prop=$prop build=$b demo_with_change_exit=$with (want 1) demo_without_exit=$without (want 0) pkgtests_exit=$pt (want 0) check_exit=$rc (want 1) demo=$demo_pkg:$demo_run"
 grep "^VIOLATION\|^FAILED" $dest/check_output.log | head -5
